@@ -158,6 +158,6 @@ pub fn spec_strategy(max_m: usize, max_n: usize) -> impl Strategy<Value = Spec> 
             presentation(n).prop_map(move |pres| Spec::Unw { kind, m, ss, items: items.clone(), pres })
         })
     });
-    let ord = (prop_oneof![Just(1u32), 2u32..70], 1usize..6, any::<bool>(), 1u16..12).prop_flat_map(|(m, l, wy, alpha)| prop::collection::vec(0u16..alpha, l..(l + 20)).prop_map(move |seq| Spec::Ord { m, l, wy, seq }));
+    let ord = (prop_oneof![Just(1u32), 2u32..70], prop_oneof![6 => 1usize..6, 1 => 6usize..=15], any::<bool>(), 1u16..12).prop_flat_map(|(m, l, wy, alpha)| prop::collection::vec(0u16..alpha, l..(l + 20)).prop_map(move |seq| Spec::Ord { m, l, wy, seq }));
     prop_oneof![4 => pmh, 1 => sha, 6 => unw, 2 => ord]
 }
